@@ -5,6 +5,7 @@ from ordered_set import OrderedSet
 from xdsl.builder import Builder
 from xdsl.context import Context
 from xdsl.dialects import builtin, x86, x86_func
+from xdsl.dialects.builtin import IntAttr, IntegerAttr
 from xdsl.dialects.x86.registers import (
     R12,
     R13,
@@ -14,6 +15,7 @@ from xdsl.dialects.x86.registers import (
     RBX,
     RSP,
     GeneralRegisterType,
+    Reg64Type,
 )
 from xdsl.passes import ModulePass
 from xdsl.rewriter import InsertPoint
@@ -30,17 +32,34 @@ class X86PrologueEpilogueInsertion(ModulePass):
     name = "x86-prologue-epilogue-insertion"
 
     def _process_function(self, func: x86_func.FuncOp) -> None:
+        # Narrow names (`ebx`, `bx`, `bl`, ...) alias the 64-bit register with the same
+        # index, so writing them clobbers the callee-saved register just the same.
         used_callee_preserved_registers = OrderedSet(
-            res.type
+            reg
             for op in func.walk()
             if not isinstance(op, x86.GetRegisterOp)
             for res in op.results
             if isinstance(res.type, GeneralRegisterType)
-            if res.type in X86_CALLEE_SAVED_REGISTERS
+            if isinstance(res.type.index, IntAttr)
+            if (reg := Reg64Type.from_index(res.type.index.data))
+            in X86_CALLEE_SAVED_REGISTERS
         )
 
         if not used_callee_preserved_registers:
             return
+
+        # The pushes below move the stack pointer: stack-passed arguments, which are
+        # addressed relative to the incoming stack pointer, end up further away from it.
+        pushed_bytes = 8 * len(used_callee_preserved_registers)
+        for arg in func.body.blocks[0].args:
+            if arg.type != RSP:
+                continue
+            for use in tuple(arg.uses):
+                if isinstance(load := use.operation, x86.DM_MovOp):
+                    load.memory_offset = IntegerAttr(
+                        load.memory_offset.value.data + pushed_bytes,
+                        load.memory_offset.type,
+                    )
 
         builder = Builder(InsertPoint.at_start(func.body.blocks[0]))
         sp_register = builder.insert(x86.GetRegisterOp(RSP))
